@@ -48,6 +48,11 @@ func runC14(p *Prog, r *Report) {
 	c14R5(p, r)
 	c14R6(p, r)
 	c14R7(p, r)
+	const r8 = "C14-R8"
+	r.Rule(r8, "lock balance in package stats: Lock/RLock only with the mutex not held by the function, Unlock/RUnlock only with the matching lock held, released at every exit (or by a deferred call)")
+	nb := lockBalance(p, r, r8, "stats", nil)
+	r.Count("lock_operations_checked", nb)
+	r.Floor(r8, 6)
 }
 
 func trafficFields(p *Prog) []string {
@@ -559,6 +564,39 @@ func c14R5(p *Prog, r *Report) {
 					}
 				}
 				r.Check(userOK, rule, construct+":user", cs.Pos(), why, "user argument "+exprStr(ua)+" is not the session's authenticated user")
+				// what was counted is recorded: from every update of a figure handed to the
+				// collector, every path to the function's exit passes this call (an error at the
+				// end of a session does not make its traffic free)
+				lost := ""
+				for _, a := range cs.Call.Args[1:] {
+					e := ast.Unparen(a)
+					for {
+						if inner, isConv := isConversionExpr(info, e); isConv {
+							e = ast.Unparen(inner)
+							continue
+						}
+						break
+					}
+					o := objOf(info, e)
+					if o == nil {
+						continue
+					}
+					for _, d := range fc.Defs(o) {
+						switch st := fc.G.V[d].Node.(type) {
+						case *ast.ValueSpec:
+							if len(st.Values) == 0 {
+								continue
+							}
+						}
+						if d == cs.V {
+							continue
+						}
+						if fc.G.ReachAfter(d, func(v *Vertex) bool { return v.ID == cs.V }, nil)[fc.G.Exit] {
+							lost = fmt.Sprintf("%s is updated at %s and the function can then end without recording it", o.Name(), p.posStr(fc.G.V[d].Node.Pos()))
+						}
+					}
+				}
+				r.Check(lost == "", rule, construct+":recorded-on-every-exit", cs.Pos(), "every path from an update of the figures to the exit passes the recording call", lost+": sessions that end that way (e.g. with a copy error after a peer reset) are never counted")
 				if cs.Fn.Name() == "CollectTCPSession" {
 					continue // roles checked by C13-R3
 				}
